@@ -220,6 +220,14 @@ func Load(repo string, pikePkgs []string, overlay map[string][]string, donors []
 		if firstErr != nil {
 			return nil, fmt.Errorf("type-check %s: %v", path, firstErr)
 		}
+		// language version of the module (go.mod): go/ssa picks the loop-variable semantics from it
+		// (per-loop variables before go1.22, per-iteration from go1.22 on)
+		if v := moduleGoVersion(repo); v != "" {
+			info.FileVersions = map[*ast.File]string{}
+			for _, f := range files {
+				info.FileVersions[f] = v
+			}
+		}
 		ld.Types[path] = pkg
 		ld.Infos[path] = info
 		ld.Files[path] = files
@@ -360,4 +368,19 @@ func (ld *Loaded) Func(pkgRel, name string) *ssa.Function {
 		return f
 	}
 	return nil
+}
+
+// moduleGoVersion returns "go1.N" from the go directive of <repo>/go.mod ("" when absent).
+func moduleGoVersion(repo string) string {
+	b, err := os.ReadFile(filepath.Join(repo, "go.mod"))
+	if err != nil {
+		return ""
+	}
+	for _, l := range strings.Split(string(b), "\n") {
+		f := strings.Fields(l)
+		if len(f) == 2 && f[0] == "go" {
+			return "go" + f[1]
+		}
+	}
+	return ""
 }
